@@ -137,7 +137,8 @@ theorem WF.hasIndex_iff {t : TableIDs} (h : WF t) (id : Nat) :
 /-! ### `Remove` -/
 
 /-- Unfolding of `Remove` when the map knows the ID. -/
-theorem remove_some (t : TableIDs) (id index : Nat) (h : AL.find? t.indices id = some index) :
+theorem remove_some (t : TableIDs) (id index : Nat) (h : AL.find? t.indices id = some index)
+    (hlt : index < t.tables.length) :
     t.remove id =
       (if index = t.tables.length - 1 then
         { tables := t.tables.take (t.tables.length - 1), indices := AL.erase t.indices id }
@@ -151,11 +152,21 @@ theorem remove_some (t : TableIDs) (id index : Nat) (h : AL.find? t.indices id =
   rw [h]
   by_cases hi : index = t.tables.length - 1
   · simp [hi]
-  · simp [hi]
+  · have hget : ((t.tables.set index (t.tables.getD (t.tables.length - 1) 0)).set (t.tables.length - 1)
+        (t.tables.getD index 0)).getD index 0 = t.tables.getD (t.tables.length - 1) 0 := by
+      rw [List.getD_eq_getElem?_getD, List.getElem?_set_ne (Ne.symm hi), List.getElem?_set_self hlt]
+      rfl
+    have hne : (index != t.tables.length - 1) = true := by simpa using hi
+    simp only [hne, if_true, hget, hi, if_false]
 
 theorem remove_none (t : TableIDs) (id : Nat) (h : AL.find? t.indices id = none) :
     t.remove id = (t, false) := by
   unfold TableIDs.remove; rw [h]
+
+/-- under the invariant a looked-up index is a position of the slice -/
+theorem WF.index_lt {t : TableIDs} (h : WF t) {id index : Nat}
+    (hf : AL.find? t.indices id = some index) : index < t.tables.length :=
+  (List.getElem?_eq_some_iff.1 ((h.index id index).1 hf)).1
 
 /-- `Remove` of an ID that is not in the slice changes nothing and reports `false`. -/
 theorem WF.remove_of_not_mem {t : TableIDs} (h : WF t) {id : Nat} (hid : id ∉ t.tables) :
@@ -170,7 +181,7 @@ theorem WF.remove_snd {t : TableIDs} (h : WF t) (id : Nat) :
     rw [remove_none t id hf]
     simp [(h.find?_none_iff id).1 hf]
   | some index =>
-    rw [remove_some t id index hf]
+    rw [remove_some t id index hf (h.index_lt hf)]
     simp only [true_iff]
     exact (h.mem_iff_find? id).2 ⟨index, hf⟩
 
@@ -184,7 +195,7 @@ theorem WF.remove_getElem? {t : TableIDs} (h : WF t) {id index : Nat}
       else none := by
   have hidx := (h.index id index).1 hf
   obtain ⟨hlt, _⟩ := List.getElem?_eq_some_iff.1 hidx
-  rw [remove_some t id index hf]
+  rw [remove_some t id index hf (h.index_lt hf)]
   by_cases hi : index = t.tables.length - 1
   · simp only [hi, if_true]
     rw [List.getElem?_take]
@@ -203,7 +214,7 @@ theorem WF.remove_length {t : TableIDs} (h : WF t) {id : Nat} (hid : id ∈ t.ta
   obtain ⟨index, hf⟩ := (h.mem_iff_find? id).1 hid
   have hidx := (h.index id index).1 hf
   obtain ⟨hlt, _⟩ := List.getElem?_eq_some_iff.1 hidx
-  rw [remove_some t id index hf]
+  rw [remove_some t id index hf (h.index_lt hf)]
   by_cases hi : index = t.tables.length - 1
   · simp only [hi, if_true, List.length_take]; omega
   · simp only [hi, if_false, List.length_take, List.length_set]; omega
@@ -277,7 +288,7 @@ theorem WF.remove {t : TableIDs} (h : WF t) (id : Nat) : WF (t.remove id).1 := b
           then some index
         else AL.find? t.indices x := by
       intro x
-      rw [remove_some t id index hf]
+      rw [remove_some t id index hf (h.index_lt hf)]
       by_cases hi : index = t.tables.length - 1
       · simp only [hi, if_true, AL.find?_erase]
         simp
@@ -347,7 +358,7 @@ theorem WF.remove {t : TableIDs} (h : WF t) (id : Nat) : WF (t.remove id).1 := b
               · exact hb ⟨hi2, hix.symm⟩
             · intro e; cases e
     refine ⟨nodup_of_index _ _ hidx', ?_, hidx'⟩
-    rw [remove_some t id index hf]
+    rw [remove_some t id index hf (h.index_lt hf)]
     by_cases hi : index = t.tables.length - 1
     · simp only [hi, if_true]; exact h.uniq.erase _
     · simp only [hi, if_false]; exact (h.uniq.insert _ _).erase _
